@@ -270,16 +270,31 @@ func (ex *Exec) renderArg(c *CallCtx, st *State, sp *fmtSpec, arg Value) []rende
 			}
 			return out
 		case 'x', 'X':
-			if sg {
-				abort("UNSUPPORTED", "%%x of a signed integer")
-			}
-			var out []rendered
 			md := 1
 			if sp.hasWidth && sp.zero && !sp.minus {
 				md = sp.width
 			}
-			for _, r := range ex.hexDigits(st, x, sp.verb == 'X', md) {
-				out = append(out, rendered{r.st, pad(r.out, sp, true, 0)})
+			if !sg {
+				var out []rendered
+				for _, r := range ex.hexDigits(st, x, sp.verb == 'X', md) {
+					out = append(out, rendered{r.st, pad(r.out, sp, true, 0)})
+				}
+				return out
+			}
+			// signed operands print a minus sign and the magnitude
+			neg := term.Slt(x, term.Const(x.W(), 0))
+			var out []rendered
+			sts := ex.splitStates(st, []*term.Term{term.Not(neg), neg}, false)
+			if sts[0] != nil {
+				for _, r := range ex.hexDigits(sts[0], x, sp.verb == 'X', md) {
+					out = append(out, rendered{r.st, pad(r.out, sp, true, 0)})
+				}
+			}
+			if sts[1] != nil {
+				for _, r := range ex.hexDigits(sts[1], term.Neg(x), sp.verb == 'X', md-1) {
+					bs := append([]*term.Term{term.Const(8, '-')}, r.out...)
+					out = append(out, rendered{r.st, pad(bs, sp, true, 1)})
+				}
 			}
 			return out
 		case 'c':
